@@ -125,6 +125,11 @@ TENT* _ZN3tbb6detail2d117concurrent_vectorI4Elem12vp_allocatorIS3_EE19allocate_l
 void _ZN3tbb6detail2d117concurrent_vectorI4Elem12vp_allocatorIS3_EE13internal_growIJEEENS1_15vector_iteratorIS6_S3_EEmmDpRKT_(struct S_class_tbb__detail__d1__vector_iterator* ret, VEC* v, u64 s, u64 e) {
   __CPROVER_assume(0);
 }
+/* capacity() is cut in this unit as well: it only feeds the index of the iterator grow_to_at_least returns (size() = min(claimed, capacity())),
+   which this harness does not check for the waiting thread; its 3/64-iteration table scan would cost the waiting thread three extra slices
+   between the end of its wait loop and the observer, during which the forced rounds let the publisher finish (a seeded bug was missed that way) */
+u64 _ZNK3tbb6detail2d117concurrent_vectorI4Elem12vp_allocatorIS3_EE8capacityEv(VEC* v) { return ~(u64)0; }
+u64 _ZNK3tbb6detail2d113segment_tableI4Elem12vp_allocatorIS3_ENS1_17concurrent_vectorIS3_S5_EELm3EE8capacityEv(struct S_class_tbb__detail__d1__segment_table* t) { return ~(u64)0; }
 #endif
 /* no allocation failure is injected in these runs (and the units are compiled -fno-exceptions, where the real function aborts):
    any tbb::detail::r1::throw_exception (bad_alloc / out_of_range from the failure-tag checks) is a violation */
